@@ -185,6 +185,19 @@ Section Lex.
     | _ => 0
     end.
 
+  Definition push_open (st : lstate) (f : bytes) : lstate :=
+    mkLS (l_cond st) (l_acc st) (l_names st) (f :: l_open st) (l_files st) (l_pending st).
+  Definition pop_open (st : lstate) : lstate :=
+    mkLS (l_cond st) (l_acc st) (l_names st) (tl (l_open st)) (l_files st) (l_pending st).
+  Definition set_name (st : lstate) (n : option bytes) : lstate :=
+    mkLS (l_cond st) (l_acc st) (n :: tl (l_names st)) (l_open st) (l_files st) (l_pending st).
+  Definition push_frame (st : lstate) : lstate :=
+    mkLS 0 (l_acc st) (None :: l_names st) (l_open st) (l_files st) (l_pending st).
+  Definition pop_frame (st : lstate) : lstate :=
+    mkLS (l_cond st) (l_acc st) (tl (l_names st)) (l_open st) (l_files st) (l_pending st).
+  Definition add_files (st : lstate) (fs' : list bytes) : lstate :=
+    mkLS (l_cond st) (l_acc st) (l_names st) (l_open st) (l_files st ++ fs') (l_pending st).
+
   (* one frame's files, scanned in order with [scan_file]; [prev_line] = final yylineno of the
      buffer that is current when the next file is opened (used by the error report) *)
   Section Frame.
@@ -197,8 +210,7 @@ Section Lex.
       match files with
       | [] => ([], StopEOB, st)
       | f :: rest =>
-          let st1 := mkLS (l_cond st) (l_acc st) (Some f :: tl (l_names st)) (l_open st)
-                          (l_files st) (l_pending st) in
+          let st1 := set_name st (Some f) in
           match fs_lookup FS f with
           | None =>
               (* <<EOF>> rule: the next file of the frame cannot be opened *)
@@ -211,14 +223,12 @@ Section Lex.
               ([tk], StopError, st2)
           | Some (FFile content) =>
               let st2 := add_ev st1 (LvOpen f) in
-              let st3 := mkLS (l_cond st2) (l_acc st2) (l_names st2) (f :: l_open st2) (l_files st2)
-                              (l_pending st2) in
+              let st3 := push_open st2 f in
               let '(toks, stop, st4, line) := scan_file st3 content in
               match stop with
               | StopEOB =>
                   (* next_include_file: close this stream, go on with the next file *)
-                  let st5 := add_ev (mkLS (l_cond st4) (l_acc st4) (l_names st4) (tl (l_open st4))
-                                          (l_files st4) (l_pending st4)) (LvClose f) in
+                  let st5 := add_ev (pop_open st4) (LvClose f) in
                   let '(toks2, stop2, st6) := lex_files rest st5 line in
                   (toks ++ toks2, stop2, st6)
               | _ => (toks, stop, st4)
@@ -227,108 +237,117 @@ Section Lex.
       end.
   End Frame.
 
-  (* scan one buffer; [d] = remaining include-depth budget, [fuel] >= length of the text + 1 *)
-  Fixpoint lex_depth (d : nat) : lstate -> bytes -> list ltoken * lstop * lstate * Z :=
-    fun st0 content =>
-    (fix lex_buf (fuel : nat) (st : lstate) (b : buf) {struct fuel}
-       : list ltoken * lstop * lstate * Z :=
-       match fuel with
-       | O => ([], StopStuck, st, b_line b)
-       | S fuel' =>
-           match b_rest b with
-           | [] => ([], StopEOB, st, b_line b)
-           | _ =>
-               match flex_match T (l_cond st) (b_bol b) (b_rest b) with
-               | None => ([], StopStuck, st, b_line b)
-               | Some (rule, O) => ([], StopStuck, st, b_line b)
-               | Some (rule, len) =>
-                   let text := firstn len (b_rest b) in
-                   let rest := skipn len (b_rest b) in
-                   let bol' := (last text 0 =? 10) in
-                   let line' := if nthZ rule_eol rule =? 0 then b_line b
-                                else b_line b + count_nl text in
-                   let b' := mkBuf rest bol' line' in
-                   let continue := fun st' => lex_buf fuel' st' b' in
-                   let tokret := fun t =>
-                     let '(tk, st') := emit st line' t None in
-                     let '(toks, stop, st'', l) := lex_buf fuel' st' b' in
-                     (tk :: toks, stop, st'', l) in
-                   match action_of actions rule with
-                   | ABegin sc => continue (set_cond st sc)
-                   | AIgnore => continue st
-                   | AAppendText => continue (set_acc st (l_acc st ++ until_nul text))
-                   | AAppendChar c => continue (set_acc st (l_acc st ++ [c]))
-                   | AAppendHex => continue (set_acc st (l_acc st ++ [hex2_val text]))
-                   | AEndString =>
-                       let '(tk, st') := emit st line' (TkString (until_nul (l_acc st))) None in
-                       let '(toks, stop, st'', l) := lex_buf fuel' (set_cond (set_acc st' []) 0) b' in
-                       (tk :: toks, stop, st'', l)
-                   | ARet t => tokret (TkP t)
-                   | ABool v => tokret (TkBool v)
-                   | AName => tokret (TkName text)
-                   | AFloat | AInteger | AInteger64 | AHex | AHex64 =>
-                       match numeric_token atof (action_of actions rule) text with
-                       | Some t => tokret t
-                       | None =>
-                           let '(tk, st') := emit st line' TkError None in ([tk], StopError, st', line')
-                       end
-                   | AEcho => continue (add_ev st (LvStdout text))
-                   | AUnknown => ([], StopStuck, st, line')
-                   | AIncludeEnd =>
-                       let path := until_nul (l_acc st) in
-                       let st1 := set_acc st [] in
-                       if Z.of_nat (length (l_names st1)) - 1 =? max_depth then
-                         let '(tk, st') := emit st1 line' TkError
-                                             (Some (err_include_too_deep, cur_name st1, line')) in
-                         ([tk], StopError, st', line')
-                       else
-                         let '(evs, err, files) := call_incfn path in
-                         let st2 := fold_left add_ev evs st1 in
-                         match err, files with
-                         | Some msg, _ =>
-                             let '(tk, st') := emit st2 line' TkError (Some (msg, cur_name st2, line')) in
-                             ([tk], StopError, st', line')
-                         | None, None => continue (set_cond st2 0)
-                         | None, Some [] => continue (set_cond st2 0)
-                         | None, Some (f1 :: frest) =>
-                             (* every returned name is appended to ctx->filenames first *)
-                             let st3 := mkLS (l_cond st2) (l_acc st2) (l_names st2) (l_open st2)
-                                             (l_files st2 ++ f1 :: frest) (l_pending st2) in
-                             match fs_lookup FS f1 with
-                             | None =>
-                                 (* first file cannot be opened: frame popped, reported at the directive *)
-                                 let '(tk, st') := emit st3 line' TkError
-                                                     (Some (err_bad_include, cur_name st3, line')) in
-                                 ([tk], StopError, st', line')
-                             | Some FDir =>
-                                 (* a directory: opened, recognised by fstat, closed; same report *)
-                                 let st3d := add_ev (add_ev st3 (LvOpen f1)) (LvClose f1) in
-                                 let '(tk, st') := emit st3d line' TkError
-                                                     (Some (err_bad_include, cur_name st3d, line')) in
-                                 ([tk], StopError, st', line')
-                             | Some (FFile _) =>
-                                 match d with
-                                 | O => ([], StopStuck, st3, line')
-                                 | S d' =>
-                                     (* new frame; BEGIN INITIAL runs right after the buffer switch *)
-                                     let st3' := mkLS 0 (l_acc st3) (None :: l_names st3) (l_open st3)
-                                                      (l_files st3) (l_pending st3) in
-                                     let '(toks, stop, st4) :=
-                                       lex_files (lex_depth d') (f1 :: frest) st3' line' in
-                                     match stop with
-                                     | StopEOB =>
-                                         (* pop the frame, resume this buffer *)
-                                         let st5 := mkLS (l_cond st4) (l_acc st4) (tl (l_names st4))
-                                                         (l_open st4) (l_files st4) (l_pending st4) in
-                                         let '(toks2, stop2, st6, l) := lex_buf fuel' st5 b' in
-                                         (toks ++ toks2, stop2, st6, l)
-                                     | _ => (toks, stop, st4, line')
-                                     end
-                                 end
-                             end
-                         end
-                   end
-               end
-           end
-       end) (S (length content)) st0 (mkBuf content true 1).
+  (* ---- one scanner step: one flex match and its action (no recursion) ---- *)
+  Inductive step_res :=
+  | SCont (st : lstate) (b : buf)                        (* nothing returned to the parser; go on *)
+  | STok (tk : ltoken) (st : lstate) (b : buf)            (* one token returned; go on *)
+  | SStop (toks : list ltoken) (stop : lstop) (st : lstate) (line : Z)
+  | SIncl (st : lstate) (files : list bytes) (line : Z) (b : buf).
+      (* an @include directive accepted: scan [files] in a new frame, then go on with b *)
+
+  Definition stop_error (st : lstate) (line : Z) (err : option (bytes * option bytes * Z)) : step_res :=
+    let '(tk, st') := emit st line TkError err in SStop [tk] StopError st' line.
+
+  Definition lex_step (st : lstate) (b : buf) : step_res :=
+    match flex_match T (l_cond st) (b_bol b) (b_rest b) with
+    | None => SStop [] StopStuck st (b_line b)
+    | Some (rule, O) => SStop [] StopStuck st (b_line b)
+    | Some (rule, len) =>
+        let text := firstn len (b_rest b) in
+        let rest := skipn len (b_rest b) in
+        let bol' := (last text 0 =? 10) in
+        let line' := if nthZ rule_eol rule =? 0 then b_line b else b_line b + count_nl text in
+        let b' := mkBuf rest bol' line' in
+        let tokret := fun t => let '(tk, st') := emit st line' t None in STok tk st' b' in
+        match action_of actions rule with
+        | ABegin sc => SCont (set_cond st sc) b'
+        | AIgnore => SCont st b'
+        | AAppendText => SCont (set_acc st (l_acc st ++ until_nul text)) b'
+        | AAppendChar c => SCont (set_acc st (l_acc st ++ [c])) b'
+        | AAppendHex => SCont (set_acc st (l_acc st ++ [hex2_val text])) b'
+        | AEndString =>
+            let '(tk, st') := emit st line' (TkString (until_nul (l_acc st))) None in
+            STok tk (set_cond (set_acc st' []) 0) b'
+        | ARet t => tokret (TkP t)
+        | ABool v => tokret (TkBool v)
+        | AName => tokret (TkName text)
+        | AFloat | AInteger | AInteger64 | AHex | AHex64 =>
+            match numeric_token atof (action_of actions rule) text with
+            | Some t => tokret t
+            | None => stop_error st line' None
+            end
+        | AEcho => SCont (add_ev st (LvStdout text)) b'
+        | AUnknown => SStop [] StopStuck st line'
+        | AIncludeEnd =>
+            let path := until_nul (l_acc st) in
+            let st1 := set_acc st [] in
+            if Z.of_nat (length (l_names st1)) - 1 =? max_depth then
+              stop_error st1 line' (Some (err_include_too_deep, cur_name st1, line'))
+            else
+              let '(evs, err, files) := call_incfn path in
+              let st2 := fold_left add_ev evs st1 in
+              match err, files with
+              | Some msg, _ => stop_error st2 line' (Some (msg, cur_name st2, line'))
+              | None, None => SCont (set_cond st2 0) b'
+              | None, Some [] => SCont (set_cond st2 0) b'
+              | None, Some (f1 :: frest) =>
+                  (* every returned name is appended to ctx->filenames first *)
+                  let st3 := add_files st2 (f1 :: frest) in
+                  match fs_lookup FS f1 with
+                  | None =>
+                      (* first file cannot be opened: frame popped, reported at the directive *)
+                      stop_error st3 line' (Some (err_bad_include, cur_name st3, line'))
+                  | Some FDir =>
+                      (* a directory: opened, recognised by fstat, closed; same report *)
+                      let st3d := add_ev (add_ev st3 (LvOpen f1)) (LvClose f1) in
+                      stop_error st3d line' (Some (err_bad_include, cur_name st3d, line'))
+                  | Some (FFile _) =>
+                      (* new frame; BEGIN INITIAL runs right after the buffer switch *)
+                      SIncl (push_frame st3) (f1 :: frest) line' b'
+                  end
+              end
+        end
+    end.
+
+  (* scan one buffer.  [do_include files st line] scans the files of a new include frame (None: the
+     include-depth budget of the model is used up, which MAX_INCLUDE_DEPTH makes unreachable);
+     [fuel] >= length of the text + 1 *)
+  Section Buf.
+    Variable do_include : option (list bytes -> lstate -> Z -> list ltoken * lstop * lstate).
+
+    Fixpoint lex_buf (fuel : nat) (st : lstate) (b : buf) {struct fuel}
+      : list ltoken * lstop * lstate * Z :=
+      match fuel with
+      | O => ([], StopStuck, st, b_line b)
+      | S fuel' =>
+          match b_rest b with
+          | [] => ([], StopEOB, st, b_line b)
+          | _ =>
+              match lex_step st b with
+              | SCont st' b' => lex_buf fuel' st' b'
+              | STok tk st' b' =>
+                  let '(toks, stop, st'', l) := lex_buf fuel' st' b' in (tk :: toks, stop, st'', l)
+              | SStop toks stop st' l => (toks, stop, st', l)
+              | SIncl st3' files line' b' =>
+                  match do_include with
+                  | None => ([], StopStuck, st3', line')
+                  | Some incl =>
+                      let '(toks, stop, st4) := incl files st3' line' in
+                      match stop with
+                      | StopEOB =>
+                          (* pop the frame, resume this buffer *)
+                          let '(toks2, stop2, st6, l) := lex_buf fuel' (pop_frame st4) b' in
+                          (toks ++ toks2, stop2, st6, l)
+                      | _ => (toks, stop, st4, line')
+                      end
+                  end
+              end
+          end
+      end.
+  End Buf.
+
+  (* [d] = remaining include-depth budget *)
+  Fixpoint lex_depth (d : nat) (st0 : lstate) (content : bytes) : list ltoken * lstop * lstate * Z :=
+    lex_buf (match d with O => None | S d' => Some (lex_files (lex_depth d')) end)
+            (S (length content)) st0 (mkBuf content true 1).
 End Lex.
